@@ -376,7 +376,7 @@ def run(ctx: Context) -> None:
             for c in nx:
                 it = norm_text(fl_.resolve(c.args[0]).generators[0].iter)
                 ok = ok or it in ('self.dataset.variables.items()', 'self.dataset.data_vars.values()', 'self.dataset.variables.values()',
-                                  'self.dataset.data_vars.items()')
+                                  'self.dataset.data_vars.items()', 'self.dataset.variables', 'self.dataset.variables.keys()', 'self.dataset.data_vars', 'self.dataset.data_vars.keys()')
             ctx.check('R11.3', ok, "coordinate discovery takes the first match in dataset variable order", fi, nx[0] if nx else fi.node,
                       construct=f"next(... for ... in {norm_text(fl_.resolve(nx[0].args[0]).generators[0].iter) if nx else '?'})")
         # the mesh variable: of the variables with cf_role mesh_topology, the 2-D one whatever its position
